@@ -13,6 +13,9 @@
 //	                    (exactly one if the tag is current); creation with the
 //	                    empty tag / If-None-Match: * succeeds at most once
 //	C18.atomic_reader   a concurrent reader sees a complete definition
+//	C18.content_matches_tag  one writer, eight readers (GetSanitisedDescription
+//	                    and GET through apiHandler): every (definition, tag)
+//	                    pair served is a pair that was written
 //	C18.atomic          a child process killed (strace, SIGKILL on syscall
 //	                    entry) before every file-related system call of one
 //	                    update leaves the complete old or the complete new
@@ -1117,6 +1120,158 @@ func (h *hist) raceOps(n int) {
 	h.state()
 }
 
+// ---------------------------------------------------------------- readers vs one writer
+
+// resync tells the model the definition now on disk (after a stream whose
+// individual writes are not replayed by the model).
+func (h *hist) resync() {
+	p, _, err := readProj(h.file)
+	if err != nil {
+		h.t.Fail("C18", "atomic_reader", "definition unreadable after the race: "+err.Error())
+		return
+	}
+	h.exp = p.clone()
+	fi, err := os.Stat(h.file)
+	if err != nil {
+		return
+	}
+	h.t.Op("ok", "seed", p.d, h.usersArg(p), h.wildArg(p), p.keys, fi.Size(), fi.ModTime().UnixNano())
+}
+
+// httpGetGroup is an API GET of the group: status, ETag header, displayName.
+func httpGetGroup() (int, string, string) {
+	w := httptest.NewRecorder()
+	webserver.VerifEtagAPIHandler(w, httpReq{kind: "getgroup"}.build())
+	var body struct {
+		DisplayName string `json:"displayName"`
+	}
+	json.Unmarshal(w.Body.Bytes(), &body)
+	return w.Code, w.Header().Get("Etag"), body.DisplayName
+}
+
+// rwRace: ONE writer replaces the definition `versions` times, every version
+// with a distinctive displayName, and records the tag of every version it
+// wrote; concurrent readers fetch (definition, tag) as the API does
+// (group.GetSanitisedDescription and GET through apiHandler).  Every pair
+// served must be a pair that was written: the tag served with a definition is
+// the tag of THAT definition (C18.content_matches_tag).  The stamps are the
+// filesystem's own; a tag that two versions happen to share is set aside.
+func rwRace(t *tr.Trace, r *tr.Rand, versions int) {
+	h := newHist(t, r, "rwrace", true, true)
+	h.seed(randSeed(r))
+	type pair struct {
+		tag  string
+		name string
+	}
+	var mu sync.Mutex
+	written := map[string]string{}
+	ambiguous := map[string]bool{}
+	served := map[pair]string{} // pair -> who served it
+	record := func(tag, name string) {
+		mu.Lock()
+		if old, ok := written[tag]; ok && old != name {
+			ambiguous[tag] = true
+		}
+		written[tag] = name
+		mu.Unlock()
+	}
+	tag := h.curTag()
+	record(tag, fmt.Sprintf("d%d", h.exp.d))
+	var stop bool
+	var smu sync.Mutex
+	stopped := func() bool { smu.Lock(); defer smu.Unlock(); return stop }
+	var wg sync.WaitGroup
+	errs := map[string]bool{}
+	for i := 0; i < 8; i++ {
+		wg.Add(1)
+		go func(i int) {
+			defer wg.Done()
+			for !stopped() {
+				var p pair
+				who := "GetSanitisedDescription"
+				if i%2 == 0 {
+					desc, etag, err := group.GetSanitisedDescription(groupName)
+					if err != nil {
+						mu.Lock()
+						errs["GetSanitisedDescription: "+err.Error()] = true
+						mu.Unlock()
+						continue
+					}
+					p = pair{etag, desc.DisplayName}
+				} else {
+					who = "HTTP GET"
+					code, etag, name := httpGetGroup()
+					if code != 200 {
+						mu.Lock()
+						errs[fmt.Sprintf("HTTP GET answered %d", code)] = true
+						mu.Unlock()
+						continue
+					}
+					p = pair{etag, name}
+				}
+				mu.Lock()
+				served[p] = who
+				mu.Unlock()
+			}
+		}(i)
+	}
+	base := 1000 + r.Intn(1000)
+	acks := 0
+	for k := 0; k < versions; k++ {
+		d := base + k
+		var err error
+		switch {
+		case k%7 == 3:
+			// other writes replace the file too (same definition, new tag)
+			err = group.SetKeys(groupName, keysOf(1+k%5))
+			d = base + k - 1
+		default:
+			err = group.UpdateDescription(groupName, tag, descOf(d))
+		}
+		if err != nil {
+			t.Fail("C18", "content_matches_tag", fmt.Sprintf("single writer, version %d: %v", k, err))
+			break
+		}
+		acks++
+		tag = h.curTag()
+		record(tag, fmt.Sprintf("d%d", d))
+	}
+	smu.Lock()
+	stop = true
+	smu.Unlock()
+	wg.Wait()
+	bad := 0
+	t.Checked("C18.content_matches_tag")
+	for p, who := range served {
+		n, ok := written[p.tag]
+		switch {
+		case !ok:
+			bad++
+			t.Fail("C18", "content_matches_tag", fmt.Sprintf("%s served definition %q with tag %s, which is the tag of no version that was written", who, p.name, p.tag))
+		case ambiguous[p.tag]:
+			t.Note("tag-shared-by-two-versions")
+		case n != p.name:
+			bad++
+			t.Fail("C18", "content_matches_tag", fmt.Sprintf("%s served definition %q with tag %s, which is the tag of %q (after %d versions)", who, p.name, p.tag, n, acks))
+		}
+		if bad >= 3 {
+			break
+		}
+	}
+	t.Checked("C18.atomic_reader")
+	for e := range errs {
+		t.Fail("C18", "atomic_reader", "a reader concurrent with the writer: "+e)
+		break
+	}
+	t.Note(fmt.Sprintf("rwrace-pairs-served>=%d", len(served)/100*100))
+	t.Op(fmt.Sprint(bad), "rwrace", acks)
+	h.resync()
+	h.state()
+	if len(served) > 10 {
+		t.Nontrivial(fmt.Sprintf("rwrace/%d/%d", acks, len(served)))
+	}
+}
+
 // ---------------------------------------------------------------- crash points
 
 const crashSyscalls = "openat,write,pwrite64,fsync,fdatasync,close,rename,renameat,renameat2,unlink,unlinkat,ftruncate,truncate,mkdirat,fchmod,fchmodat"
@@ -1424,6 +1579,9 @@ func runDescStore(t *tr.Trace, r *tr.Rand, n int) {
 	}
 	corpus(t, r)
 	crashHistory(t, r, n >= 200)
+	for i := 0; i < 3+n/100; i++ {
+		rwRace(t, r, 400)
+	}
 	for hi := 0; hi < n; hi++ {
 		writable := !r.Chance(1, 12)
 		var h *hist
